@@ -3,6 +3,8 @@ import DryocVerif.Proofs.GenArgon2
 import DryocVerif.Proofs.PwhashExtra
 import DryocVerif.Proofs.GenPwhash
 import DryocVerif.Proofs.Argon2Code
+import DryocVerif.Proofs.Argon2Wrap
+import DryocVerif.Proofs.PwhashRaw
 /-
 C09 — Argon2 (`src/argon2.rs`) and `crypto_pwhash` (`src/classic/crypto_pwhash.rs`).
 Property theorems only; helper lemmas live in `DryocVerif/Proofs/Argon2.lean` (the model
@@ -25,6 +27,24 @@ re-implementation of `blake2b::longhash` over `Spec.Blake2b.hash`.  The Rust ins
 `argon2_hash`, `crypto_pwhash` with every BLAKE2b call going through `Model.Blake2b` (the statement-by-statement
 model of blake2b_soft.rs; all other functions are shared with `Model/Argon2.lean`), and `longhash_code_eq`,
 `initialHash_code_eq`, `argon2_code_path_eq_model`, `argon2_code_path_eq_spec` prove that this changes nothing.
+
+ALLOCATION.  `Argon2Instance::initialize` (`self.region.memory.resize(memory_blocks, …)`) is `Array.replicate` in the
+model and cannot fail there: memory allocation is assumed to succeed (Vec::resize aborts the process otherwise;
+libsodium returns ENOMEM); the property text bounds the cost parameters.  The size of the request is explicit:
+`memory_blocks = 4p·⌊max(m, 8p)/4p⌋` blocks of 1 KiB (`memoryGeometry_eq`; for the string verifier
+`C10.strVerify_memory_request`).  The same holds for `hash.resize(config.hash_length, 0)` of the object API below
+`isize::MAX` (above it `Vec::resize` panics — §9, `objVerifyRaw_panic_iff`).
+
+THE TOP OF THE ACCEPTED MEMORY RANGE (why every `…_eq_spec` / `…_no_panic` / `…_total` theorem carries `h7`).
+`crypto_pwhash` accepts `memlimit` up to 4 TiB (`CRYPTO_PWHASH_MEMLIMIT_MAX = 4398046510080`), `Argon2Context::new`
+accepts `m_cost` up to 2^32 − 1.  In `index_alpha` the `u32` sum `start_position + relative_position` reaches
+`7·segment_length − 3`, which exceeds `u32::MAX` as soon as `7·⌊m/4⌋ ≥ 2^32 + 3`, i.e. for `memlimit` in
+(≈ 2.28 TiB, 4 TiB].  There a build with overflow checks (dev profile; what `Model/Argon2.lean` transcribes) PANICS
+(`index_alpha_overflow_witness`), and a release build (wrapping arithmetic) computes a reference index different from
+RFC 9106's and hence returns a tag different from libsodium's (`index_alpha_wrapping_ne_rfc`, concrete, at
+`m_cost = 2^32 − 1`).  These calls are within "every accepted combination" of the property text, but they cannot be
+executed on any available machine (they need more than 2.28 TiB of RAM), so the differential run cannot exhibit
+them; the theorems state the boundary instead: `h7 : 7 * (memlimit / 1024 / 4) < 2 ^ 32 + 3`.
 -/
 namespace DryocVerif.Properties.C09
 open DryocVerif DryocVerif.Model.Argon2
@@ -90,7 +110,10 @@ theorem cryptoPwhash_unfold (outlen : Nat) (pwd salt : Bytes) (opslimit memlimit
 
 /-- `crypto_pwhash` returns `Err` exactly outside `PwhashValid` (`1 ≤ opslimit ≤ 2^32−1`,
 `8192 ≤ memlimit ≤ 4398046510080`, `16 ≤ outlen ≤ 2^32−1`, `|pwd| ≤ 2^32−1`,
-`8 ≤ |salt| ≤ 2^32−1`) — under the two side conditions of `argon2Hash_no_panic`. -/
+`8 ≤ |salt| ≤ 2^32−1`) — under the two side conditions of `argon2Hash_no_panic`.
+Difference from libsodium (not a theorem, read off its source and exercised by the differential run): Argon2i
+(`alg = 1`) with `opslimit` 1 or 2 is accepted by dryoc — `PwhashValid` has no per-algorithm minimum — and rejected
+by libsodium (`crypto_pwhash_argon2i` requires `opslimit ≥ 3`, `EINVAL`). -/
 theorem cryptoPwhash_validate_iff {outlen : Nat} {pwd salt : Bytes} {opslimit memlimit alg : Nat}
     (halg : alg = 1 ∨ alg = 2) (hout : outlen < 0xFFFFFFFF)
     (h7 : 7 * (memlimit / 1024 / 4) < 2 ^ 32 + 3) :
@@ -216,6 +239,32 @@ theorem index_alpha_overflow_witness :
       ∧ indexAlpha bigInst { pass := 1, lane := 0, slice := 2, index := 2 ^ 30 - 2 } 0 true = .panic :=
   ⟨Proofs.Argon2.bigInst_geometry, by constructor <;> decide, by constructor <;> decide,
     Proofs.Argon2.indexAlpha_overflow_witness⟩
+
+/-- **… and without overflow checks the result is not RFC 9106's** (concrete, evaluated by the kernel).
+`indexAlphaW` (`Model/Argon2Wrap.lean`) is `index_alpha` with wrapping `u32` arithmetic, i.e. the release profile.
+For the largest accepted memory (`m_cost = 2^32 − 1`: `segment_length = 2^30 − 1`, `lane_length = 2^32 − 4`), at
+pass 1, slice 2, index `segment_length − 1`, `pseudo_rand = 0`, same lane, the wrapped position is `3221225462`
+while the 64-bit / RFC 9106 position (`refIndexN`) is `3221225466`; the checked build panics. -/
+theorem index_alpha_wrapping_ne_rfc :
+    indexAlphaW bigInst { pass := 1, lane := 0, slice := 2, index := 2 ^ 30 - 2 } 0 true = .ok 3221225462
+      ∧ Proofs.Argon2.refIndexN bigInst { pass := 1, lane := 0, slice := 2, index := 2 ^ 30 - 2 } 0 true = 3221225466
+      ∧ indexAlpha bigInst { pass := 1, lane := 0, slice := 2, index := 2 ^ 30 - 2 } 0 true = .panic :=
+  Proofs.Argon2Wrap.index_alpha_wrapping_ne_rfc
+
+/-- the wrapping `index_alpha` is not a second opinion on the ordinary range: wherever the checked model returns
+`.ok` (in particular under `h7`, `index_alpha_no_panic`) the wrapping one returns the same value — so below
+≈ 2.28 TiB the two build profiles compute the same function -/
+theorem index_alpha_wrapping_eq_checked {inst : Instance} {pos : Position} {j1 : Nat} {sameLane : Bool} {v : Nat}
+    (hi : pos.index < 2 ^ 32) (hl : inst.laneLength < 2 ^ 32)
+    (h : indexAlpha inst pos j1 sameLane = .ok v) :
+    indexAlphaW inst pos j1 sameLane = .ok v :=
+  Proofs.Argon2Wrap.indexAlphaW_eq_of_ok hi hl h
+
+/-- the hypotheses of `index_alpha_wrapping_eq_checked` are satisfiable (`m = 13`, `p = 1`) -/
+example : (2 : Nat) < 2 ^ 32 ∧ (mkInstance 2 3 13 1).laneLength < 2 ^ 32
+    ∧ indexAlpha (mkInstance 2 3 13 1) { pass := 1, lane := 0, slice := 2, index := 2 } 0 true = .ok 6
+    ∧ indexAlphaW (mkInstance 2 3 13 1) { pass := 1, lane := 0, slice := 2, index := 2 } 0 true = .ok 6 := by
+  decide
 
 /-- the hypotheses of `index_alpha_no_panic` are satisfiable (`m = 13`, `p = 1`) -/
 example : PosInv (mkInstance 2 3 13 1) { pass := 0, lane := 0, slice := 0, index := 2 } := by
@@ -407,7 +456,9 @@ shorter than `u32::MAX` and `memlimit` below ≈ 2.28 TiB (`h7`) — whatever th
 limits are: this combines `cryptoPwhash_validate_iff` (rejections are `Err`) with
 `argon2Hash_no_panic` (accepted calls run to `Ok`).  The two bounds are necessary
 (`longhash_panics_at_max_outlen`, `index_alpha_overflow_witness`), and so is the algorithm
-(`cryptoPwhash_panics_on_unknown_alg`). -/
+(`cryptoPwhash_panics_on_unknown_alg`).
+About the model: memory allocation is assumed to succeed (Vec::resize aborts the process otherwise; libsodium
+returns ENOMEM); the property text bounds the cost parameters. -/
 theorem cryptoPwhash_never_panics {outlen : Nat} {pwd salt : Bytes} {opslimit memlimit alg : Nat}
     (halg : alg = 1 ∨ alg = 2) (hout : outlen < 0xFFFFFFFF)
     (h7 : 7 * (memlimit / 1024 / 4) < 2 ^ 32 + 3) :
@@ -415,7 +466,9 @@ theorem cryptoPwhash_never_panics {outlen : Nat} {pwd salt : Bytes} {opslimit me
   Proofs.PwhashExtra.cryptoPwhash_ne_panic halg hout h7
 
 /-- … in full: on that domain `crypto_pwhash` is the total function "RFC 9106 tag on
-`PwhashValid`, `Err` off it". -/
+`PwhashValid`, `Err` off it".
+About the model: memory allocation is assumed to succeed (Vec::resize aborts the process otherwise; libsodium
+returns ENOMEM); the property text bounds the cost parameters. -/
 theorem cryptoPwhash_total {outlen : Nat} {pwd salt : Bytes} {opslimit memlimit alg : Nat}
     (halg : alg = 1 ∨ alg = 2) (hout : outlen < 0xFFFFFFFF)
     (h7 : 7 * (memlimit / 1024 / 4) < 2 ^ 32 + 3) :
@@ -462,7 +515,10 @@ stored salt and the config's limits, then the two hashes are compared with `ct_e
 `objVerify_len_mismatch`.) -/
 
 /-- **`verify` says `Ok` exactly when `crypto_pwhash` on the candidate reproduces the stored hash**
-— no hypotheses. -/
+— no hypotheses ON THE TYPED MODEL `objVerify`, which starts at the call of `crypto_pwhash`.  The Rust first runs
+`hash.resize(config.hash_length, 0)`, a capacity-overflow panic for `hash_length > isize::MAX = 2^63 − 1`: the
+statement holds for the code (`objVerifyRaw`) under `hashLength ≤ 2^63 − 1` (`objVerifyRaw_eq_objVerify`); the
+unconditional statement about the code is `objVerifyRaw_iff`.  [docstring restated; statement unchanged] -/
 theorem objVerify_iff (hash salt : Bytes) (hashLength opslimit memlimit alg : Nat) (pwd' : Bytes) :
     objVerify hash salt hashLength opslimit memlimit alg pwd' = .ok () ↔
       cryptoPwhash hashLength pwd' salt opslimit memlimit alg = .ok hash :=
@@ -475,17 +531,94 @@ theorem objVerify_iff_len (hash salt : Bytes) (opslimit memlimit alg : Nat) (pwd
   Proofs.PwhashExtra.objVerify_iff hash salt hash.length opslimit memlimit alg pwd'
 
 /-- `verify` errs exactly when `crypto_pwhash` errs or returns something else, and panics exactly
-when `crypto_pwhash` panics -/
+when `crypto_pwhash` panics — statements about the TYPED model `objVerify`; they hold for the code (`objVerifyRaw`)
+under `hashLength ≤ 2^63 − 1` (`objVerifyRaw_eq_objVerify`).  Above that bound the typed model says `Err` and the
+code panics in `Vec::resize` (`objVerify_typed_err_code_panics`).  [docstring restated; statement unchanged] -/
 theorem objVerify_err_iff (hash salt : Bytes) (hashLength opslimit memlimit alg : Nat) (pwd' : Bytes) :
     objVerify hash salt hashLength opslimit memlimit alg pwd' = .err ↔
       cryptoPwhash hashLength pwd' salt opslimit memlimit alg = .err ∨
       ∃ c, cryptoPwhash hashLength pwd' salt opslimit memlimit alg = .ok c ∧ c ≠ hash :=
   Proofs.PwhashExtra.objVerify_err_iff hash salt hashLength opslimit memlimit alg pwd'
 
+/-- panic side of the TYPED model (see `objVerify_err_iff`); for the code: `objVerifyRaw_panic_iff`, which has the
+additional disjunct `2^63 − 1 < hashLength`.  [docstring added; statement unchanged] -/
 theorem objVerify_panic_iff (hash salt : Bytes) (hashLength opslimit memlimit alg : Nat) (pwd' : Bytes) :
     objVerify hash salt hashLength opslimit memlimit alg pwd' = .panic ↔
       cryptoPwhash hashLength pwd' salt opslimit memlimit alg = .panic :=
   Proofs.PwhashExtra.objVerify_panic_iff hash salt hashLength opslimit memlimit alg pwd'
+
+/-! #### the code-shaped `verify` / `hash_with_salt` / `hash`: `Vec::resize` in front of `crypto_pwhash`
+
+`objHashWithSaltRaw`, `objVerifyRaw`, `objHashRaw` (`Model/PwhashApi.lean`) start at the FIRST statement of the Rust
+functions: `hash.resize(config.hash_length, 0)` (and `salt.resize(config.salt_length, 0)` in `PwHash::hash`), which
+for `Vec<u8>` panics with "capacity overflow" above `isize::MAX = 2^63 − 1` — before `crypto_pwhash` validates
+anything.  These are the definitions the driver EXECUTES for the `pwhash_obj` request (`Driver/Pwhash.lean`:
+`objHashWithSaltRaw`, `objVerifyRaw`, `objToString`, `reencodeRaw`, `strVerifyRaw`, compared field by field with the
+crate's answer), and `pwhash_keypair` runs `Model.KeyForms.deriveKeypair` over `cryptoPwhash`. -/
+
+/-- the code-shaped `hash_with_salt` is the typed one for every `hash_length ≤ isize::MAX` … -/
+theorem objHashWithSaltRaw_eq {hashLength : Nat} (salt : Bytes) (opslimit memlimit alg : Nat) (pwd : Bytes)
+    (h : hashLength ≤ 2 ^ 63 - 1) :
+    objHashWithSaltRaw hashLength salt opslimit memlimit alg pwd
+      = objHashWithSalt hashLength salt opslimit memlimit alg pwd :=
+  Proofs.PwhashRaw.objHashWithSaltRaw_eq salt opslimit memlimit alg pwd h
+
+/-- … and so is the code-shaped `verify` -/
+theorem objVerifyRaw_eq_objVerify (hash salt : Bytes) {hashLength : Nat} (opslimit memlimit alg : Nat) (pwd' : Bytes)
+    (h : hashLength ≤ 2 ^ 63 - 1) :
+    objVerifyRaw hash salt hashLength opslimit memlimit alg pwd'
+      = objVerify hash salt hashLength opslimit memlimit alg pwd' :=
+  Proofs.PwhashRaw.objVerifyRaw_eq_objVerify hash salt opslimit memlimit alg pwd' h
+
+/-- the hypothesis is satisfiable (every length the property quantifies over: 16 ..= 128) -/
+example : (128 : Nat) ≤ 2 ^ 63 - 1 := by decide
+
+/-- **the code-shaped `verify` panics exactly when `hash_length > isize::MAX` (in `Vec::resize`) or `crypto_pwhash`
+panics** — no hypotheses -/
+theorem objVerifyRaw_panic_iff (hash salt : Bytes) (hashLength opslimit memlimit alg : Nat) (pwd' : Bytes) :
+    objVerifyRaw hash salt hashLength opslimit memlimit alg pwd' = .panic ↔
+      2 ^ 63 - 1 < hashLength ∨ cryptoPwhash hashLength pwd' salt opslimit memlimit alg = .panic :=
+  Proofs.PwhashRaw.objVerifyRaw_panic_iff hash salt hashLength opslimit memlimit alg pwd'
+
+/-- **the code-shaped `verify` says `Ok` exactly when `hash_length ≤ isize::MAX` and `crypto_pwhash` reproduces the
+stored hash** — no hypotheses (the counterpart of `objVerify_iff` for the code) -/
+theorem objVerifyRaw_iff (hash salt : Bytes) (hashLength opslimit memlimit alg : Nat) (pwd' : Bytes) :
+    objVerifyRaw hash salt hashLength opslimit memlimit alg pwd' = .ok () ↔
+      hashLength ≤ 2 ^ 63 - 1 ∧ cryptoPwhash hashLength pwd' salt opslimit memlimit alg = .ok hash :=
+  Proofs.PwhashRaw.objVerifyRaw_iff hash salt hashLength opslimit memlimit alg pwd'
+
+/-- **where the typed model and the code differ**: for a `Config` with `hash_length > isize::MAX` (constructible:
+`with_hash_length` takes any `usize`) the typed model answers `Err` (`crypto_pwhash` would reject the length) while
+the code panics before getting there -/
+theorem objVerify_typed_err_code_panics (hash salt : Bytes) {hashLength : Nat} (opslimit memlimit : Nat) {alg : Nat}
+    (pwd' : Bytes) (halg : alg = 1 ∨ alg = 2) (h : 2 ^ 63 - 1 < hashLength) :
+    objVerify hash salt hashLength opslimit memlimit alg pwd' = .err
+      ∧ objVerifyRaw hash salt hashLength opslimit memlimit alg pwd' = .panic :=
+  Proofs.PwhashRaw.objVerify_err_of_big hash salt opslimit memlimit pwd' halg h
+
+/-- the hypotheses are satisfiable (`hash_length = 2^63`, a `usize`) -/
+example : (2 = 1 ∨ 2 = 2) ∧ 2 ^ 63 - 1 < 2 ^ 63 ∧ 2 ^ 63 < 2 ^ 64 := by decide
+
+/-- `PwHash::hash` (random salt, `salt` = the `config.salt_length` bytes drawn): the two `resize`s panic above
+`isize::MAX`, otherwise it panics exactly when `crypto_pwhash` does -/
+theorem objHashRaw_panic_iff (hashLength : Nat) (salt : Bytes) (opslimit memlimit alg : Nat) (pwd : Bytes) :
+    objHashRaw hashLength salt opslimit memlimit alg pwd = .panic ↔
+      2 ^ 63 - 1 < hashLength ∨ 2 ^ 63 - 1 < salt.length
+        ∨ cryptoPwhash hashLength pwd salt opslimit memlimit alg = .panic :=
+  Proofs.PwhashRaw.objHashRaw_panic_iff hashLength salt opslimit memlimit alg pwd
+
+/-- below the bound `PwHash::hash` is `hash_with_salt` on the drawn salt, which it returns alongside the hash -/
+theorem objHashRaw_eq {hashLength : Nat} {salt : Bytes} (opslimit memlimit alg : Nat) (pwd : Bytes)
+    (h : hashLength ≤ 2 ^ 63 - 1) (hs : salt.length ≤ 2 ^ 63 - 1) :
+    objHashRaw hashLength salt opslimit memlimit alg pwd =
+      match objHashWithSalt hashLength salt opslimit memlimit alg pwd with
+      | .ok hash => .ok (hash, salt)
+      | .err => .err
+      | .panic => .panic :=
+  Proofs.PwhashRaw.objHashRaw_eq opslimit memlimit alg pwd h hs
+
+example : (32 : Nat) ≤ 2 ^ 63 - 1 ∧ ([0, 1, 2, 3, 4, 5, 6, 7, 8, 9, 10, 11, 12, 13, 14, 15] : Bytes).length ≤ 2 ^ 63 - 1 := by
+  decide
 
 /-- **In RFC terms** (composition with `cryptoPwhash_eq_spec`): on the documented domain `verify`
 says `Ok` iff the candidate passes `crypto_pwhash`'s validation and its Argon2 tag IS the stored
@@ -499,7 +632,11 @@ theorem objVerify_iff_spec {hash salt : Bytes} {hashLength opslimit memlimit alg
       Spec.Argon2.argon2 alg pwd' salt [] [] opslimit (memlimit / 1024) 1 hashLength = hash :=
   Proofs.PwhashExtra.objVerify_iff_spec halg hout h7
 
-/-- … and `Err` otherwise: on that domain `verify` never panics -/
+/-- … and `Err` otherwise: on that domain `verify` never panics.
+This is about the typed model `objVerify` (it starts at the call of `crypto_pwhash`); `hout` implies
+`hashLength ≤ isize::MAX`, so by `objVerifyRaw_eq_objVerify` it holds verbatim for the code-shaped `objVerifyRaw`.
+Memory allocation is assumed to succeed (Vec::resize aborts the process otherwise; libsodium returns ENOMEM); the
+property text bounds the cost parameters. -/
 theorem objVerify_total {hash salt : Bytes} {hashLength opslimit memlimit alg : Nat} {pwd' : Bytes}
     (halg : alg = 1 ∨ alg = 2) (hout : hashLength < 0xFFFFFFFF)
     (h7 : 7 * (memlimit / 1024 / 4) < 2 ^ 32 + 3) :
@@ -728,7 +865,11 @@ theorem translated_fill_tables_wf :
   Proofs.GenArgon2.fill_tables_wf
 
 /-- `index_alpha` as translated (plain ℕ arithmetic) returns the model's value whenever no checked operation of the model
-panics … -/
+panics …
+NB the generated function uses unbounded ℕ (no `u32` wrap, no overflow check; subtraction truncates at 0) and is
+compared with the hand model only where the model's checked arithmetic returns `.ok` — the dev / overflow-checks
+profile.  The release profile wraps instead of panicking: it is `indexAlphaW`, which agrees with both wherever the
+checked model is `.ok` (`index_alpha_wrapping_eq_checked`) and differs beyond (`index_alpha_wrapping_ne_rfc`). -/
 theorem translated_index_alpha (inst : Instance) (pos : Position) (pseudoRand : Nat) (sameLane : Bool)
     (v : Nat) (h : Model.Argon2.indexAlpha inst pos pseudoRand sameLane = .ok v) :
     Gen.Argon2.index_alpha inst.passes inst.memoryBlocks inst.segmentLength inst.laneLength inst.lanes
@@ -761,7 +902,11 @@ theorem translated_pwhash_guards :
    Proofs.GenPwhash.crypto_pwhash_str_guards_eq_model.1, Proofs.GenPwhash.crypto_pwhash_str_guards_eq_model.2⟩
 
 /-- tie to the source: the memory geometry of `argon2_hash` (m′ = 4p·⌊max(m, 8p)/4p⌋ and the segment length) as translated is the
-model's whenever the model's checked arithmetic does not panic -/
+model's whenever the model's checked arithmetic does not panic.
+NB the generated function uses unbounded ℕ and is compared with the hand model only where the model's checked `u32`
+arithmetic returns `.ok` (dev / overflow-checks profile); the release profile wraps where the model panics
+(`8 * parallelism` for `parallelism ≥ 2^29`, `memoryGeometry_panic_iff` — unreachable through `crypto_pwhash`, which
+passes `parallelism = 1`). -/
 theorem translated_memory_geometry (mCost parallelism mb sl : Nat)
     (h : memoryGeometry mCost parallelism = .ok (mb, sl)) :
     Gen.Pwhash.memory_geometry mCost parallelism = (mb, sl) :=
